@@ -314,7 +314,7 @@ fn prefixes(n: usize) -> Vec<Vec<Act>> {
 
 pub fn run(mut rep: Report) -> i32 {
     let thorough = rep.thorough();
-    let depth = if thorough { 11 } else { 8 };
+    let depth = if thorough { 12 } else { 9 };
     let depth_info = if thorough { 7 } else { 5 };
     rep.rule = format!(
         "sessions initiator / both-initiate with one-time pre-key bundles: every sequence of length <= {depth} over {{A-send, B-send, A-recv-next, B-recv-next}} (actions that are not enabled — nothing pending, no session yet — are skipped), and in every reached state every replay of every already processed message to the party whose state just changed; one case = one action sequence (prefix); non-trivial = both parties received a message that crossed one of their own in flight and both have processed messages that are then replayed"
